@@ -107,6 +107,7 @@ class C17(Campaign):
                    "snapshot-after-failed-op", "snapshot after a failed (deferred) initial activation", "diverging suffixes, interleaved",
                    "allow_event_without_transition reassigned on a live machine (before / after the snapshot)",
                    "a listener object shared by identity between the original and its copy",
+                   "listener attached after construction (add_listener / add_observer) before the snapshot",
                    "guard provided by an instance attribute the machine subclass sets before calling the constructor"]
     rule = ("one run = a generated machine (all option combinations rtc x allow x state_field x start_value, "
             "custom attribute, model and listener callbacks, sync/async) driven through a prefix, copied with "
@@ -196,6 +197,19 @@ class C17(Campaign):
             at2 = rnd.randrange(1, len(out))
             who = "A" if at2 <= out.index(next(o for o in out if o["op"] == "clone")) else rnd.choice(["A", "B"])
             out.insert(at2, {"op": "setopt", "inst": who, "allow": rnd.random() < 0.5})
+        from .storage import names_ok
+
+        late_c = [r_ for r_ in new.get("listeners", []) if names_ok(
+            prog, ["machine", "model"] + [x for x in new["listeners"] if x != r_])
+            and not any(m_.get("async") for c_, m_ in prog["cbs"].items() if c_.startswith(r_ + "."))]
+        if late_c and not prog.get("listener_eq_all") and rnd.random() < 0.25:
+            # a listener attached AFTER construction -- with add_listener() or its deprecated alias
+            # add_observer() -- and before the snapshot: it belongs to the machine and to its copies
+            role = rnd.choice(late_c)
+            new["listeners"] = [x for x in new["listeners"] if x != role]
+            cl = next(i for i, o in enumerate(out) if o["op"] == "clone")
+            out.insert(rnd.randrange(1, cl + 1), {"op": "add_listener", "inst": "A", "listeners": [role],
+                                                   "via": rnd.choice(["listener", "observer", "observer"])})
         if rnd.random() < 0.25:
             # one listener OBJECT (an audit log) shared by the original and, later, its copy: the copy got
             # its own copy of it, and accepts the original's object like any listener it has not seen
